@@ -103,3 +103,13 @@ REG.axiom(
     "an encoding (utf-8 / utf-16-le) has at least one byte per character and is empty iff the text is empty",
     symbols=["ENC"],
 )
+
+
+# ---------------------------------------------------------------------------------------------- 256**n (A-PY)
+from pyvc.builtins import POW256  # noqa: E402
+
+_m, _n = z3.Ints("a!m a!n")
+REG.axiom(z3.ForAll([_m, _n], z3.Implies(z3.And(_m >= 0, _m <= _n), POW256(_m) <= POW256(_n)), patterns=[z3.MultiPattern(POW256(_m), POW256(_n))]),
+          "256**m <= 256**n for 0 <= m <= n", symbols=["POW256"])
+REG.axiom(z3.ForAll([_m], POW256(_m) >= 1, patterns=[POW256(_m)]), "256**n >= 1", symbols=["POW256"])
+REG.axiom(z3.And(*[POW256(k) == 256**k for k in (0, 1, 2, 3, 4, 8, 16)]), "256**k for small concrete k", symbols=["POW256"])
